@@ -495,7 +495,7 @@ def run():
     cc = []
     for c, (dg, fails, stats) in zip(cases, res):
         cc.append((c, dg))
-        for kind, inp, obs, exp in fails:
+        for kind, inp, obs, exp in ec.shrink_failures(ck, c, fails, lambda c2: _work((c2, True))[1]):
             ck.fail(kind, inp, obs, exp)
         for key, v in stats.items():
             ck.count(key, v)
@@ -513,7 +513,7 @@ def run():
     ecc = []
     for c, (dg, fails, stats) in zip(ecases, eres):
         ecc.append((c, dg))
-        for kind, inp, obs, exp in fails:
+        for kind, inp, obs, exp in ec.shrink_failures(ck, c, fails, lambda c2: _work_export(c2)[1]):
             ck.fail(kind, inp, obs, exp)
         for key, v in stats.items():
             ck.count(key, v)
